@@ -34,6 +34,22 @@ def seed_all(seed):
         pass
 
 
+# Hang budget shared by the worker processes of one bounded run (created before the pool forks): a changed tree on which
+# every guarded call hangs would otherwise cost (guard x cases / workers) CPU seconds.  After HANG_LIMIT guard expiries --
+# each of them already reported as a violation -- the remaining guarded cases are skipped (counted, never reported).
+HANGS = mp.Value('i', 0)
+HANG_LIMIT = 6
+
+
+def hang_seen():
+    with HANGS.get_lock():
+        HANGS.value += 1
+
+
+def hang_budget_spent():
+    return HANGS.value >= HANG_LIMIT
+
+
 def pmap(fn, items, procs=16):
     items = list(items)
     if len(items) <= 1 or procs <= 1:
